@@ -230,4 +230,19 @@ SEGMENTS = {
         sig="pub(crate) fn seg_dw(&self, l2_e: L2Entry, off: u64, buf: KBuf) -> Qcow2Result<()>",
         await_calls=["do_write_data_file", "do_write_cow"],
     ),
+    # ---- data write incl. zero-once of a new cluster and the COW hand-off
+    "WD": dict(
+        file="src/dev/write.rs", fn="do_write_data_file", start="FULL",
+        sig="pub(crate) fn seg_wd(&self, virt_off: u64, mapping: &Mapping, cow_mapping: Option<&Mapping>, buf: &[u8]) -> Qcow2Result<()>",
+        await_calls=["do_compressed_cow", "do_back_cow", "clear_new_cluster", "call_fsync"],
+        rewrites=[
+            # futures are lazy: creating one sends nothing; model creation as a closure, `.await` as the call
+            (r"let f_write = self\.call_write\((.*)\);", r"let f_write = || self.k_call_write_q(\1);"),
+            (r"f_write\.await", "f_write()"),
+            (r"discard = Some\(self\.call_fallocate\((.*)\)\);", r"discard = Some(|| self.k_call_fallocate(\1));"),
+            (r"df\.await\?", "df()?"),
+            (r"self\.new_cluster\.read\(\)\.await", "self.new_cluster.kread()"),
+            (r"cluster\.write\(\)\.await", "cluster.kwrite()"),
+        ],
+    ),
 }
